@@ -374,7 +374,27 @@ func main() {
 		ks = append(ks, k.s)
 		tot += len(k.s)
 	}
+	// (K) on real file bytes (Store/RepairBytes.v recover_bytes): spread evenly over the shards
+	nb := 16
+	if a.Thorough() {
+		nb = 64
+	}
+	bcases := kBytesCases(vlib.NewRNG(a.Seed^0x19b7).Fork(), res, nb)
+	if len(bcases) > 0 {
+		var mixed []string
+		step := (len(ks) + len(bcases)) / len(bcases)
+		bi := 0
+		for i := 0; i < len(ks)+len(bcases); i++ {
+			if bi < len(bcases) && (i%step == 0 || i-bi >= len(ks)) {
+				mixed = append(mixed, bcases[bi])
+				bi++
+			} else {
+				mixed = append(mixed, ks[i-bi])
+			}
+		}
+		ks = mixed
+	}
 	if len(ks) > 0 {
-		res.WriteCases("From GL Require Import Corr.C19Run.", "c19case", "mismatches", ks, 16)
+		res.WriteCases("From GL Require Import Corr.C19Run Corr.C19BytesRun.", "c19case", "mismatches", ks, 16)
 	}
 }
